@@ -653,8 +653,91 @@ def unbound_address_cases():
     return n, out
 
 
+RUNTIME_CONFS = ('entries-listed-in-descending-index-order', 'several-dh-groups-peer-wants-the-second', 'several-algorithms')
+
+
+def runtime_confs(name):
+    from harness import scenarios as S
+    if name == 'entries-listed-in-descending-index-order':
+        wide = dict(my_subnet='10.1.0.0/16', peer_subnet='10.2.0.0/16', mode='tunnel', ip_proto='any')
+        narrow = dict(my_subnet='10.1.1.0/24', peer_subnet='10.2.1.0/24', mode='tunnel', ip_proto='any')
+        c = S.base_confs()
+        c['A']['conn_ab']['protect'] = [S.entry(20, **wide), S.entry(10, **narrow)]
+        mirror = lambda e: dict(e, my_subnet=e['peer_subnet'], peer_subnet=e['my_subnet'])   # noqa
+        c['B']['conn_ba']['protect'] = [S.entry(40, **mirror(wide)), S.entry(30, **mirror(narrow))]
+        return c
+    if name == 'several-dh-groups-peer-wants-the-second':
+        return S.base_confs(a_over={'dh': ['14', '19']}, b_over={'dh': ['19', '14']}, a_entry={'dh': ['14', '19']},
+                            b_entry={'dh': ['19', '14']})
+    o = {'encr': ['aes128', 'aes256'], 'integ': ['sha1', 'sha512', 'sha256'], 'prf': ['sha512', 'sha1'], 'dh': ['20', '19']}
+    e = {'encr': ['aes128', 'aes256'], 'integ': ['sha512', 'sha1']}
+    return S.base_confs(a_over=o, b_over=dict(o, encr=['aes256', 'aes128']), a_entry=e, b_entry=dict(e, integ=['sha1', 'sha512']))
+
+
+def runtime_case(name):
+    """the object the daemon works with is still the faithful reading of the dictionary after the daemon has used it: a
+    session with every kind of event (negotiations in both directions, INVALID_KE_PAYLOAD retries, rekeys, liveness checks,
+    status queries on the control socket), compared with the independent reading after every step"""
+    import copy as _copy
+    from harness import scenarios as S
+    from harness.world import State
+    confs = runtime_confs(name)
+    given = _copy.deepcopy(confs)
+    w = S.new_world(confs)
+    out, steps = [], [0]
+
+    def look(after):
+        steps[0] += 1
+        for n_, ep in w.endpoints.items():
+            if not ep.alive:
+                out.append(('runtime:daemon-died', '%s died after %s: %r' % (n_, after, ep.dead_reason[:2]), dict(runtime=name)))
+                return False
+            reading = R.read(_copy.deepcopy(given[n_]), [str(a) for a in ep.addrs], {})
+            for clause, effect, msg in compare(ep.conf, reading, given[n_]):
+                out.append(('runtime:%s:%s' % (clause, effect), 'after %s the configuration %s works with is no longer what the '
+                            'dictionary says: %s' % (after, n_, msg), dict(runtime=name)))
+        return not out
+
+    def est(ep):
+        return [i for i, s_ in enumerate(ep.controller.ike_sas) if s_.state == State.ESTABLISHED]
+    if not look('start-up'):
+        return steps[0], out
+    script = [('acquire', 'A', 0, 0), 'drain', ('status', 'A'), ('status', 'B'), ('acquire', 'A', 0, -1), 'drain',
+              ('acquire', 'B', 0, 0), 'drain', 'soft:A', 'drain', ('status', 'A'), 'rekey:B', 'drain', ('status', 'B'),
+              'soft:B', 'drain', 'dpd:A', 'drain', 'rekey:A', 'drain', ('acquire', 'B', 0, -1), 'drain', ('status', 'A')]
+    for item in script:
+        if item == 'drain':
+            w.deliver_all()
+        elif isinstance(item, tuple):
+            if item[0] == 'acquire' and item[3] == -1:
+                item = item[:3] + (len(given[item[1]][list(given[item[1]])[0]]['protect']) - 1,)
+            w.step(item)
+        else:
+            kind, who = item.split(':')
+            ep = w.endpoints[who]
+            idx = est(ep)
+            if not idx:
+                continue
+            sa = ep.controller.ike_sas[idx[-1]]
+            if kind == 'soft':
+                if not sa.child_sas:
+                    continue
+                w.step(('expire', who, bytes(sa.child_sas[0].inbound_spi), False))
+            else:
+                w.step(('due', who, idx[-1], 'rekey_ike' if kind == 'rekey' else 'dpd'))
+        if not look(repr(item)):
+            break
+    return steps[0], out
+
+
 def replay(path):
     doc = json.load(open(path))
+    if 'runtime' in doc:
+        viol = runtime_case(doc['runtime'])[1]
+        for v in viol:
+            print('reproduced:', v[0], v[1])
+        print('REPLAY %s' % ('reproduces a violation' if viol else 'does not reproduce'))
+        sys.exit(1 if viol else 0)
     if 'unbound' in doc:
         viol = [v for v in unbound_address_cases()[1] if v[2]['unbound'] == doc['unbound']]
         for v in viol:
@@ -698,6 +781,15 @@ def main():
                 msg, doc['base'], ', '.join(doc['deviations']) or 'none'), doc)
     ub_n, ub_found = unbound_address_cases()
     n += ub_n
+    for name in RUNTIME_CONFS:
+        rn, rfound = runtime_case(name)
+        n += rn
+        outcomes['runtime:' + name] = rn
+        seen_rt = set()
+        for sig, msg, doc in rfound:
+            if sig not in seen_rt:
+                seen_rt.add(sig)
+                ck.violation('%s:%s' % (sig, name), msg, doc)
     for sig, msg, doc in ub_found:
         ck.violation(sig, msg, doc)
     alias_found, alias_n = run_alias()
